@@ -50,7 +50,8 @@ def floors(m, tier):
             "overwrites of a key": (c.get("overwrite", 0), 150),
             "one dict object passed to a second successful call": (c.get("shared_dict_reused", 0), 100),
             "writes through a second Writer instance": (c.get("second_writer_calls", 0), 150),
-            "updates without any key": (c.get("empty_updates", 0), 150)}
+            "updates without any key": (c.get("empty_updates", 0), 150),
+            "writes given as a non-dict Mapping": (c.get("mapping_proxy_writes", 0), 150)}
 
 
 def run(snap, tier, seed, t0, replay):
@@ -187,6 +188,8 @@ def ops_alphabet(al):
         if r in ("F1", "V"):
             ops.append(("set_w2", r, "k2"))          # the same write through ANOTHER Writer instance (another tool, another user)
             ops.append(("set_w2", r, "k1"))
+        if r in ("F1", "V", "G"):
+            ops.append(("update_proxy", r, "k1"))    # data given as a read-only Mapping (the declared parameter type is Mapping)
         if r in ("F1", "T", "N"):
             ops.append(("update_empty", r, None))    # an update without any key: still fails for what does not exist
         if r in ("F1", "G", "V"):
@@ -293,6 +296,10 @@ def run_sequence(rec, lab, al, ops, hid, fresh=False, config=None):
             elif op == "set_w2":
                 got = writer2.set(e, **data)
                 rec.count("second_writer_calls")
+            elif op == "update_proxy":
+                import types as _types
+                got = writer.update(e, _types.MappingProxyType(dict(data)))
+                rec.count("mapping_proxy_writes")
             elif op == "update_empty":
                 got = writer.update(e, {}) if step % 2 else writer.set(e)
                 rec.count("empty_updates")
